@@ -1,7 +1,8 @@
 """FMT: printer templates of the Display impls, read off MIR (format_args! byte-code templates + def-use of
 their arguments).  A template is a list of elements  ('lit', text) | ('hole', provenance term)."""
+import re
 import evalsum
-from norm import norm, show, short_callee
+from norm import norm, norm_cond, show, short_callee
 from tss import Interp, State
 
 
@@ -111,12 +112,78 @@ def template_of_path(it, s):
     return out
 
 
+def is_text_helper(f, path):
+    """a crate-local function (&str) -> String"""
+    b = f.bodies.get(path)
+    if not b or b["kind"] not in ("Fn", "AssocFn") or b["arg_count"] != 1 or b.get("parent"):
+        return False
+    return f.ty_s(b["locals"][1]["ty"]) in ("&str", "&std::string::String") and f.ty_s(b["locals"][0]["ty"]) == "std::string::String"
+
+
+def char_escaper(f, path):
+    """for a text helper that walks its argument character by character: the set of characters that are written with
+    a backslash in front of them, provided every character is written exactly once, in order, and nothing else is
+    written; None when the function does not have that shape"""
+    it = Interp(f, loop_bound=1, max_paths=2000)
+    st = State()
+    try:
+        res = it.run(path, [("sym", "text")], st)
+    except Exception:
+        return None
+    escaped = set()
+    plain_seen = False
+    other = None
+    for s, rv in res:
+        conds = [norm_cond(c) for c in s.conds]
+        nxt = [c for c in conds if c[0].startswith("next(")]
+        one_char = any(c[1] == "ok" and c[0].endswith("#0)") for c in nxt)
+        pushes = [show(norm(e[2][1])) for e in s.events if e[0] == "call" and short_callee(e[1]) == "String::push"]
+        if not one_char:
+            if pushes:
+                return None
+            continue
+        elem = None
+        for c in conds:
+            m = re.match(r"^(?:Eq\((\d+), )?(elem0\([^()]*(?:\([^()]*\))*[^()]*\))\)?$", c[0])
+            if m:
+                elem = m.group(2)
+        if elem is None:
+            cands = [p_ for p_ in pushes if p_.startswith("elem0(")]
+            elem = cands[0] if cands else None
+        if elem is None:
+            return None
+        # which character is this path about?
+        vals = set()
+        negs = None
+        for subj, rel in conds:
+            if subj == elem and rel.startswith("val not:"):
+                negs = set(int(x) for x in rel[8:].split(","))
+            elif subj == elem and rel.startswith("val "):
+                vals.add(int(rel[4:]))
+            m = re.match(r"^Eq\((\d+), %s\)$" % re.escape(elem), subj)
+            if m and rel == "val not:0":
+                vals.add(int(m.group(1)))
+            elif m and rel == "val 0":
+                negs = (negs or set()) | {int(m.group(1))}
+        if pushes == ["92", elem] and len(vals) == 1:
+            escaped |= vals
+        elif pushes == [elem] and not vals:
+            plain_seen = True
+            other = negs
+        else:
+            return None
+    if not plain_seen or other is None or other != escaped:
+        return None
+    return escaped
+
+
 def display_templates(f, adt, impl_path, prefix="self"):
     """variant name -> list of templates (one per path) of `impl Display for adt`"""
     b = f.bodies[impl_path]
     out = {}
     for var in f.adts[adt]["variants"]:
-        it = Interp(f)
+        # text-to-text helpers (an escaping function) stay opaque: their image is analysed on its own
+        it = Interp(f, opaque=lambda p: is_text_helper(f, p))
         st = State()
         selfv = evalsum.sym_fields(it, adt, var["name"], prefix)
         res = it.run(impl_path, [("ref", st.alloc(selfv)), ("ref", st.alloc(("sym", "fmt")))], st)
